@@ -239,12 +239,11 @@ FILL_INV = {
     "real-buckets-untouched": "forall(0, n, lambda p: F(cs, 'ts', p) == F0(cs, 'ts', p) and F(cs, 'close', p) == F0(cs, 'close', p)"
                               " and F(cs, 'open', p) == F0(cs, 'open', p) and F(cs, 'high', p) == F0(cs, 'high', p) and F(cs, 'low', p) == F0(cs, 'low', p)"
                               " and F(cs, 'volume', p) == F0(cs, 'volume', p) and F(cs, 'rd', p) == F0(cs, 'rd', p))",
-    "inserted-candles-are-flat-and-empty": (
-        "forall(1, LLen(candles), lambda q: implies(" + ID("q") + " >= next0,"
-        " F(cs, 'open', " + ID("q") + ") == " + RAWCLOSE(ID("q - 1")) + " and F(cs, 'high', " + ID("q") + ") == " + RAWCLOSE(ID("q - 1")) +
-        " and F(cs, 'low', " + ID("q") + ") == " + RAWCLOSE(ID("q - 1")) + " and F(cs, 'close', " + ID("q") + ") == " + RAWCLOSE(ID("q - 1")) +
-        ""
-        " and F(cs, 'volume', " + ID("q") + ") == 0 and F(cs, 'rd', " + ID("q") + ") == 0))"),
+    # one clause per field: small queries decide (and refute) quickly
+    **{f"inserted-candles-are-flat:{f}": ("forall(1, LLen(candles), lambda q: implies(" + ID("q") + " >= next0,"
+                                         " F(cs, '" + f + "', " + ID("q") + ") == " + RAWCLOSE(ID("q - 1")) + "))") for f in ("open", "high", "low", "close")},
+    "inserted-candles-are-empty": ("forall(1, LLen(candles), lambda q: implies(" + ID("q") + " >= next0,"
+                                   " F(cs, 'volume', " + ID("q") + ") == 0 and F(cs, 'rd', " + ID("q") + ") == 0))"),
     "first-and-last-are-the-input-ends": "LId(candles, 0) == 0 and LId(candles, LLen(candles) - 1) == n - 1",
     "elements-are-inputs-or-inserted": "forall(0, LLen(candles), lambda q: (0 <= " + ID("q") + " and " + ID("q") + " < n) or " + ID("q") + " >= next0)",
 }
